@@ -85,6 +85,7 @@ class BaseART(BaseEstimator, ClusterMixin):
         local_params = dict(valid_params)
 
         nested_params = defaultdict(dict)  # grouped by prefix
+        own_params = {}
         for key, value in params.items():
             key, delim, sub_key = key.partition("__")
             if key not in valid_params:
@@ -97,13 +98,15 @@ class BaseART(BaseEstimator, ClusterMixin):
             if delim:
                 nested_params[key][sub_key] = value
             else:
-                setattr(self, key, value)
-                valid_params[key] = value
+                own_params[key] = value
                 local_params[key] = value
 
+        # validate first: a rejected call must leave the estimator unchanged
+        self.validate_params(local_params)
         for key, sub_params in nested_params.items():
             valid_params[key].set_params(**sub_params)
-        self.validate_params(local_params)
+        for key, value in own_params.items():
+            setattr(self, key, value)
         return self
 
     def prepare_data(self, X: np.ndarray) -> np.ndarray:
